@@ -253,6 +253,8 @@ func runCase(c *Case) (res string) {
 		return runWide(c)
 	case "growth":
 		return runGrowth(c, tree)
+	case "cgrowth":
+		return runCompileGrowth(c)
 	case "rxsel":
 		return runRxSel(c, tree)
 	case "ctx":
